@@ -127,6 +127,20 @@ class Report:
             return 'violated', s.model()
         self.unknown(name, 'solver: ' + s.reason_unknown()); return 'unknown', None
 
+    def solve(self, constraints, timeout_ms=90000):
+        """satisfiability of a helper query (feasibility, reference conditions): (z3 result, model).  Like check(): a small portfolio of fresh solvers
+        with different random seeds inside the budget, because non-linear queries that one run of the solver gives up on are often immediate for
+        another; `unknown` only if every attempt gives up"""
+        cons = [c for c in constraints if c is not True]
+        if any(c is False for c in cons): return z3.unsat, None
+        r = z3.unknown; s = None
+        for (seed, share) in ((0, 0.2), (7, 0.2), (23, 0.2), (101, 0.4)):
+            s = z3.Solver(); s.set('timeout', max(1000, int(timeout_ms * share)))
+            if seed: s.set('random_seed', seed); s.set('smt.random_seed', seed)
+            s.add(*cons); t0 = time.time(); r = s.check(); self.solver_s += time.time() - t0
+            if r != z3.unknown: break
+        return r, (s.model() if r == z3.sat else None)
+
     def _cross(self, name, s, r):
         """thorough tier: the same query, printed as SMT-LIB2, is given to two independent solver builds (z3 4.8.12 binary, cvc5); a definite
         answer that contradicts z3 5.1 makes the run inconclusive (exit 2); `unknown`/timeout/parse errors of the other solver are only counted"""
